@@ -50,6 +50,9 @@ def configs(tier, seed):
       firsts = ALPHA
       for f in firsts:
         cfgs.append(dict(name='%s/hash=%s/first=%s' % (backend, hashf, f), backend=backend, hashf=hashf, first=f, L=L))
+      # a daemon running without tag support (ENABLE_TAGS = False) receives the same names
+      for f in [c for c in (';', 'a', '/', '.') if c in ALPHA]:
+        cfgs.append(dict(name='%s/hash=%s/notags/first=%s' % (backend, hashf, f), backend=backend, hashf=hashf, first=f, L=L, notags=True))
   return cfgs
 
 
@@ -63,7 +66,10 @@ def well_formed_untagged(name):
 def run_config(cfg, res):
   from vlib import boot
   backend = cfg['backend']
-  ns = boot.boot('carbon-cache', {'TAG_HASH_FILENAMES': cfg['hashf']}, standins=('whisper', 'ceres'), database=backend)
+  conf = {'TAG_HASH_FILENAMES': cfg['hashf']}
+  if cfg.get('notags'):
+    conf['ENABLE_TAGS'] = False
+  ns = boot.boot('carbon-cache', conf, standins=('whisper', 'ceres'), database=backend)
   db = ns.state.database
   # scratch layout: <root>/storage/whisper is LOCAL_DATA_DIR; decoys next to it so that an escape has somewhere to land
   data_dir = ns.settings.LOCAL_DATA_DIR
